@@ -413,6 +413,13 @@ def main(argv):
                                     'replay': 'from checks.C13 import build_x; from miasmx.expression.expression import key_expr; key_expr(build_x(d1)) vs key_expr(build_x(d2))'})
         run.ob(oid, FAILED, 'COMP', 'cpython', detail=msg, witness=rp, confirmed=True, func='key_expr')
     run.bulk('key_expr order laws on operand pool pairs', n - len(bad), 'COMP', 'cpython', secs, DISCHARGED)
+    # inductive steps of key_expr on the real body (Engine A): class tags, comparability, injectivity up to ==
+    try:
+        from checks import C13smt
+        nind = C13smt.ob_smt(run)
+    except Exception as ex:
+        import traceback
+        run.ob('C13:ind:driver', ENGINE_ERR, 'SMT-A', 'pyvc', detail='%s: %s | %s' % (type(ex).__name__, ex, traceback.format_exc()[-400:]))
     evals += seed_runs(run, tier, seed)
     run.evaluations = evals
     run.distinct = len(groups) + len(trees)
